@@ -20,6 +20,10 @@ def system_level(ctx, binary, projects, limit):
             t = programs.run_bin(binary, ["transpile", stem + ".transpiled.mmm"], d2)
             if t[0] == 0:
                 r2 = programs.run_bin(binary, ["execute", stem + ".mmm"], d2)
+        if r2 is not None and not programs.same_output(r1[1], r2[1], proj):
+            again = programs.run_bin(binary, ["run", e, "-q"], d)
+            if not programs.same_output(r1[1], again[1], None):
+                r2 = (r2[0], r1[1], r2[2])
         shutil.rmtree(d, ignore_errors=True)
         shutil.rmtree(d2, ignore_errors=True)
         return proj, r1, c, t, r2
